@@ -14,6 +14,47 @@ CHECKS = {
         'the bound; the specification itself is calibrated against the compliance corpus on every run.',
    note='Trusts the TLA+ reading of the standard (both selector-chain readings are admitted, DESIGN app. A), TLC, and the '
         'tagged-value projection shared by spec and harness.'),
+ 'C02': dict(
+   level='model_checking', ref='DESIGN.md 6 (C02), 3.4',
+   technique='TLA+ signature table and Builtins operators; TLC enumerates every function x argument count x pool tuple, replayed into the Go library',
+   text='GenCall enumerates every built-in (and an unknown name) with 0..max+1 arguments drawn from a pool of JSON values and '
+        'expression references in every position; Static.tla/Builtins.tla give the admissible outcome; TLC also checks that the '
+        'error category follows an independently stated table of argument types. Every call is replayed into the real library.',
+   note='Trusts the TLA+ reading of the function specifications (edge cases the standard leaves open are Open in the spec and counted as unpinned).'),
+ 'C10': dict(
+   level='model_checking', ref='DESIGN.md 6 (C10)',
+   technique='TLC checks the Pratt grammar of the spec against an independent precedence-level rule; all operator pairs replayed with and without explicit parentheses',
+   text='GenOps builds x op1 y op2 z for all 18x18 operator spellings (and unary prefixes); TLC checks on the model that Grammar groups '
+        'exactly as the precedence levels dictate, that unary operators bind tighter, and that full parenthesisation is neutral; every '
+        'expression and its fully parenthesised form are evaluated on the real code over all assignments of pool values to x, y, z.',
+   note='Trusts TLC and the level table written from the standard; documents are bounded to the value pool.'),
+ 'C12': dict(
+   level='model_checking', ref='DESIGN.md 6 (C12), 3.4',
+   technique='Slice.tla (two definitions cross-checked by TLC) as oracle; exhaustive small-scope enumeration of (n,start,stop,step) replayed into the Go library',
+   text='SliceLemmas checks clamp-and-walk against the set definition and the huge-magnitude lemma on every small instance; GenSlice '
+        'enumerates every start/stop/step (absent, -n-2..n+2, 64-bit limits, step 0) on arrays and mixed-width strings of length <= n, '
+        'alone and followed by selectors, and the harness replays each.',
+   note='Exhaustive only up to the length bound; magnitudes beyond it are represented by the 64-bit limit literals (justified by HugeLemma).'),
+ 'C17': dict(
+   level='model_checking', ref='DESIGN.md 6 (C17)',
+   technique='identity schemata as TLA+ instance sets; TLC checks the spec implies each identity; both sides replayed into the Go library and compared',
+   text='GenIdent instantiates the schemata S1,S2,S4,S5,S7 over pools of bases, projections and selector chains; TLC checks that the '
+        'specification implies each instance on every pool document; the harness evaluates both sides on the real code, compares each '
+        'with the specification and (where pinned) with each other. GenSurface adds the fused-node forms (and S6).',
+   note='Where the two admissible readings of selector chains differ the identity is not demanded (counted as unpinned).'),
+ 'C19': dict(
+   level='model_checking', ref='DESIGN.md 6 (C19)',
+   technique='two let semantics in TLA+ (environment, substitution) cross-checked by TLC; generated let nestings replayed into the Go library',
+   text='GenLet generates let-expressions with shadowing, sibling bindings, duplicate names and references under every context-changing '
+        'construct; TLC checks environment semantics = capture-avoiding substitution on all of them; the harness replays each on 6 documents.',
+   note='Nesting depth bounded; expression pools are fixed.'),
+ 'C20': dict(
+   level='model_checking', ref='DESIGN.md 6 (C20)',
+   technique='TLC checks equivalence-relation laws of the spec equality on all pairs/triples of a value pool; the pair matrix is replayed into the Go library',
+   text='GenEq takes all ordered pairs of a 30-value pool through ==, !=, contains, !, &&, ||, filters and algebraic combinations; TLC '
+        'checks reflexivity, symmetry, transitivity, type-strictness, != as negation, contains as exists-==, the five false-like shapes and '
+        'operand-returning &&/|| on the model; number literals in 15 spellings are compared pairwise.',
+   note='Pool-bounded.'),
 }
 
 ALL = ['C%02d' % i for i in range(1, 21)]
